@@ -241,10 +241,15 @@ def main():
         glob = [s for s in res["structural"] if not s["fn"]]
         if glob:
             undecided = "verifier rejected the generated file outside any function: " + glob[0]["msg"][:300]
+        nothing = [pr for pr, r_ in res.get("runs", {}).items() if pr != "probes" and not (r_.get("verified") or 0)]
+        if res["structural"] and nothing:
+            # a rejection that demoting the function body does not cure (its signature or contract does not type-check)
+            undecided = "verifier rejected the generated file, nothing was verified (profile %s): %s in %s" % (
+                ", ".join(nothing), res["structural"][0]["msg"][:200], res["structural"][0]["fn"])
         vac = res.get("vacuity", {}).get("vacuous", [])
         vac_mine = [v for v in vac if any(pid in res["fn_props"].get(fn, []) for fn in res["fn_props"] if v.startswith("probe." + fn.replace(" ", "_")))]
-        if vac_mine:
-            undecided = "vacuous contract: probe(s) %s verified" % ", ".join(vac_mine)
+        if vac_mine and not (res["structural"] and nothing):
+            undecided = "vacuous contract: probe(s) %s verified" % ", ".join(vac_mine)[:600]
         if not res["prop_clauses"].get(pid):
             undecided = "no obligation carries %s (zero obligations generated)" % pid
     if not undecided:
